@@ -190,6 +190,65 @@ async def agen_frame(b, i, mode, ml):
         b.unwound.append(sys._getframe())
 
 
+class ExitAwaiter:
+    """async context manager whose __aexit__ is what continues the chain: the frame that used it is then observed
+    suspended inside its own manager's exit, where older interpreters report the last body line, newer ones the with line"""
+
+    def __init__(self, b, i):
+        self.b, self.i = b, i
+
+    async def __aenter__(self):
+        return self
+
+    async def __aexit__(self, *exc):
+        try:
+            await nxt(self.b, self.i)
+        finally:
+            self.b.unwound.append(sys._getframe())
+        return False
+
+
+class PlainCM:
+    def __enter__(self):
+        return self
+
+    def __exit__(self, *a):
+        return False
+
+    async def __aenter__(self):
+        return self
+
+    async def __aexit__(self, *a):
+        return False
+
+
+async def coro_aexit_frame(b, i, ml):
+    try:
+        async with ExitAwaiter(b, i) as mgr:  # noqa: F841
+            x = 1  # noqa: F841
+            y = (
+                2
+            )  # noqa: F841
+    finally:
+        b.unwound.append(sys._getframe())
+    return "aexit-done"
+
+
+async def coro_withbody_frame(b, i, ml):
+    try:
+        with PlainCM() as outer, PlainCM():  # noqa: F841
+            async with PlainCM():
+                if ml:
+                    await (
+                        nxt(b, i)
+                    )
+                else:
+                    await nxt(b, i)
+    finally:
+        b.unwound.append(sys._getframe())
+    return "withbody-done"
+
+
 async def coro_async_for(b, i, ag):
     try:
         async for _ in ag:
@@ -259,6 +318,10 @@ def nxt(b, i):
         return b.reg(coro_frame(b, j, ml))
     if kind == "await_gencoro":
         return b.reg(gencoro_frame(b, j, ml))
+    if kind == "in_aexit":
+        return b.reg(coro_aexit_frame(b, j, ml))
+    if kind == "in_with_body":
+        return b.reg(coro_withbody_frame(b, j, ml))
     if kind == "await_obj_wrapper":
         co = b.reg(coro_frame(b, j, ml))
         return AwaitVia(co.__await__)
